@@ -4,8 +4,14 @@
   the function the translator produced from the CURRENT source is, for all inputs, the hand-written model function that the property
   theorems are about. A change to one of these Python functions changes the generated definition and breaks a theorem here
   statically, without needing a test input. (Split per source area so that a change in one area does not alarm unrelated properties.)
+  The proofs close with `tie_close` (Props/TieRobC.lean): reflexivity first, then normalisation of both sides and a case analysis, so
+  that a behaviour-preserving reshaping of the Python (renamed / inlined locals, early `return` vs conditional expression, negated
+  test with swapped branches, `for _ in range(k)` vs the unrolled calls, …) keeps the theorem, while a real change fails in seconds.
 -/
 import PyEcc.Gen.ExtraSecp
+import PyEcc.Props.TieRobC
+
+set_option linter.unusedSimpArgs false
 
 namespace PyEcc.Tie
 open PyEcc
@@ -16,7 +22,7 @@ open PyEcc
 theorem privtopub_eq (privkey : Bytes) :
     Gen.ExtraSecp.privtopub privkey = Ecdsa.privtopub privkey := by
   unfold Gen.ExtraSecp.privtopub Ecdsa.privtopub
-  with_reducible rfl
+  tie_close
 
 /-- `ecdsa_raw_sign(msghash, priv)` as translated from the source, with the call
     `deterministic_generate_k(msghash, priv)` replaced by an explicit nonce `k`, is the model's
@@ -24,14 +30,16 @@ theorem privtopub_eq (privkey : Bytes) :
 theorem ecdsa_raw_sign_eq (msghash priv : Bytes) (k : Int) :
     Gen.ExtraSecp.ecdsa_raw_sign msghash priv k = Ecdsa.rawSignWithK msghash priv k := by
   unfold Gen.ExtraSecp.ecdsa_raw_sign Ecdsa.rawSignWithK
-  with_reducible rfl
+  -- robust against: the low-s normalisation written as an early `return` / as conditional expressions
+  tie_close [pyXor_emod_two_zero]
 
 /-- `ecdsa_raw_recover(msghash, (v, r, s))` as translated from the source is the model's
     `Ecdsa.ecdsaRawRecover`. -/
 theorem ecdsa_raw_recover_eq (msghash : Bytes) (v r s : Int) :
     Gen.ExtraSecp.ecdsa_raw_recover msghash (v, r, s) = Ecdsa.ecdsaRawRecover msghash v r s := by
   unfold Gen.ExtraSecp.ecdsa_raw_recover Ecdsa.ecdsaRawRecover
-  with_reducible rfl
+  -- robust against: renamed / inlined locals, `to_jacobian(·)` instead of the literal `(·, ·, 1)`, `G` instead of `(Gx, Gy)`
+  tie_close [Gen.Secp.to_jacobian, Gen.Secp.G]
 
 
 end PyEcc.Tie
